@@ -529,7 +529,32 @@ pub fn step_adm(sim: &mut Sim, ctx: &mut Ctx, adm: &AdmSwarm) -> Option<Tx> {
         13 => Tx::one("group_admin", ix::close_bank(g.key, b.keys.bank, g.admins.admin)),
         14 => match ctx.rng.below(3) {
             0 => Tx::one("fee_admin", ix::config_group_fee(g.key, ctx.world.fee_admin, ctx.rng.chance(1, 2))),
-            1 => Tx::one(
+            1 => {
+                // sometimes the fee wallet is rotated: the new wallet gets its token accounts as
+                // fixtures, the old one is remembered (stale clients keep paying it), and the
+                // groups' cached copy stays behind until somebody propagates
+                if ctx.rng.chance(1, 3) {
+                    let neww = ctx.rng.pubkey();
+                    sim.stats.fault("fee_wallet_rotated");
+                    sim.apply(Event::SetAccount { key: neww, account: Some(crate::rt::Account::system(1_000_000_000)), why: "fixture_new_fee_wallet" });
+                    let banks: Vec<crate::world::BankInfo> = ctx.world.all_banks().into_iter().cloned().collect();
+                    for bi in banks.iter() {
+                        let ata = ix::ata(&neww, &bi.keys.mint, &bi.keys.token_program);
+                        if sim.store.get(&ata).is_none() {
+                            if let Some(mint_acc) = sim.store.get(&bi.keys.mint).cloned() {
+                                sim.apply(Event::SetAccount {
+                                    key: ata,
+                                    account: Some(crate::fixtures::token_account(&bi.keys.mint, &mint_acc, &neww, 0)),
+                                    why: "fixture_new_fee_wallet",
+                                });
+                            }
+                        }
+                    }
+                    let old = ctx.world.fee_wallet;
+                    ctx.world.retired_fee_wallets.push(old);
+                    ctx.world.fee_wallet = neww;
+                }
+                Tx::one(
                 "fee_admin",
                 ix::edit_global_fee_state(
                     ctx.world.fee_admin,
@@ -541,7 +566,8 @@ pub fn step_adm(sim: &mut Sim, ctx: &mut Ctx, adm: &AdmSwarm) -> Option<Tx> {
                     w(ctx.rng.below(100) as f64 / 1000.0),
                     w(*ctx.rng.pick(&[0.0, 0.03, 0.05, 0.1, 0.5])),
                 ),
-            ),
+            )
+            }
             _ => Tx::one("anyone", ix::propagate_fee_state(g.key)),
         },
         15 => Tx::one("fee_admin", ix::panic_pause(ctx.world.fee_admin)),
